@@ -9,11 +9,6 @@ namespace K
 variable {α : Type} [Add α] [Sub α] [Mul α] [Div α] [Neg α] [LT α] [LE α]
   [DecidableLT α] [DecidableLE α] [OfScientific α] [KOps α]
 
-/-- mirrors: filter.rs::FilterMode -/
-inductive FilterMode where
-  | lowPass | bandPass | highPass | notch
-deriving DecidableEq, Repr
-
 /-- mirrors: filter.rs::Filter (+ the pending commands of its `CommandReaders`) -/
 structure Filter (α : Type) where
   mode : FilterMode
@@ -27,21 +22,15 @@ structure Filter (α : Type) where
   cmdResonance : Cmd α α
   cmdMix : Cmd α α
 
-/-- the `f64` coefficients computed per frame in Filter::process -/
-structure FilterCoefs (α : Type) where
-  k : α
-  a1 : α
-  a2 : α
-  a3 : α
-
 namespace Filter
 
 /-- mirrors: FilterBuilder::build / Filter::new (defaults 1000.0, 0.0, Mix(1.0)) -/
 def new (mode : FilterMode) (cutoff resonance mix : Value α α) : Filter α :=
+  gen_body%
   { mode := mode
-    cutoff := Parameter.new cutoff (1000.0 : α)
-    resonance := Parameter.new resonance (0.0 : α)
-    mix := Parameter.new mix (1.0 : α)
+    cutoff := Parameter.new cutoff Gen.filterDefaultCutoff
+    resonance := Parameter.new resonance Gen.filterDefaultResonance
+    mix := Parameter.new mix Gen.filterDefaultMix
     ic1eq := Frame.zero, ic2eq := Frame.zero
     cmdMode := none, cmdCutoff := none, cmdResonance := none, cmdMix := none }
 
@@ -71,15 +60,9 @@ def onStartProcessing (s : Filter α) : Filter α :=
 
 /-- mirrors: the coefficient lines of Filter::process (all `f64`):
     `sample_rate = 1.0 / dt; g = (PI * (cutoff / sample_rate).clamp(0.0001, 0.5)).tan();
-     k = 2.0 - (1.9 * resonance); a1 = 1.0 / (1.0 + (g * (g + k))); a2 = g * a1; a3 = g * a2` -/
-def coefs (cutoff resonance dt : α) : FilterCoefs α :=
-  let sampleRate := (1.0 : α) / dt
-  let g := KOps.tan (KOps.pi * clamp (cutoff / sampleRate) (0.0001 : α) (0.5 : α))
-  let k := (2.0 : α) - ((1.9 : α) * resonance)
-  let a1 := (1.0 : α) / ((1.0 : α) + (g * (g + k)))
-  let a2 := g * a1
-  let a3 := g * a2
-  { k := k, a1 := a1, a2 := a2, a3 := a3 }
+     k = 2.0 - (1.9 * resonance); a1 = 1.0 / (1.0 + (g * (g + k))); a2 = g * a1; a3 = g * a2` — generated (GenFn.lean) -/
+def coefs (cutoff resonance dt : α) : FilterCoefs α := gen_body% Gen.filterCoefs cutoff resonance dt
+gen_alias Gen.filterCoefs => coefs
 
 /-- mirrors: `let output = match self.mode { … }` in Filter::process -/
 def modeOutput (mode : FilterMode) (k : α) (frame v1 v2 : Frame α) : Frame α :=
